@@ -572,7 +572,7 @@ def run_query(scn, notes, fname, opts, rev_label, out, r=None, ai_tail=None, may
             fail("format:json-unparsable", str(e), output=jt[:400])
     exp_ai = {l: v[1] for l, v in exp.items() if v[0] == "ai"}
     amb = {l for l, v in exp.items() if v[0] == "ambiguous"}
-    # a human author whose *name* is a session hash credited in this output (repaired in /repo 47c84a67: the
+    # a human author whose *name* is a session hash credited in this output (repaired in /repo 05e599f7: the
     # kind of a line is kept apart from the display string) — tagged for the distribution, compared like any line
     clash = {l for l, v in exp.items() if v[0] == "human" and v[1] in set(exp_ai.values())}
     if clash:
@@ -699,7 +699,7 @@ def extra_queries(scn, notes, rng, out, head):
         k = rng.randint(1, n - a + 1)
         b = rng.randint(1, n)
         k2 = rng.randint(1, b + 1)
-        # relative ends (repaired in /repo f2474c34) and open ends / single number (repaired in /repo 821fad3d)
+        # relative ends (repaired in /repo 85d0cf99) and open ends / single number (repaired in /repo 35a174f4)
         forms = [[f"{a},+{k}"], [f"{b},-{k2}"], [f"{a},"], [f",{b}"], [f"{a}"]]
         two = sorted(rng.sample(range(1, n + 1), min(n, 3)))
         if len(two) == 3:
